@@ -132,8 +132,8 @@ def check_csv(ctx):
     rr = [s for s in gr.node.body if isinstance(s, ast.Return)]
     okgh = len(rh) == 1 and isinstance(rh[0].value, ast.ListComp) and u(rh[0].value.generators[0].iter) == 'self.COLUMNS' and u(rh[0].value.elt) == u(rh[0].value.generators[0].target.elts[0])
     okgr = len(rr) == 1 and isinstance(rr[0].value, ast.ListComp) and u(rr[0].value.generators[0].iter) == 'self.COLUMNS' and not rr[0].value.generators[0].ifs \
-        and isinstance(rr[0].value.elt, ast.Call) and u(rr[0].value.elt.func) == 'getattr_nested' and [u(a) for a in rr[0].value.elt.args] == [gr.params()[1], u(rr[0].value.generators[0].target.elts[1])] \
-        and is_const(get_kw(rr[0].value.elt, 'pass_none'), True)
+        and isinstance(rr[0].value.elt, ast.Call) and u(rr[0].value.elt.func) == 'getattr_nested' and [u(a) for a in rr[0].value.elt.args[:2]] == [gr.params()[1], u(rr[0].value.generators[0].target.elts[1])] \
+        and is_const(get_arg(rr[0].value.elt, 2, 'pass_none'), True)
     rep.account_returns('E3', gh, rh[:1], 'header')
     rep.account_returns('E3', gr, rr[:1], 'row')
     rep.add('E3', gh.site(), 'header cells are the first components of COLUMNS, in table order', okgh, expected='[name for name, _ in self.COLUMNS]', found=[u(r.value) for r in rh], stmt='get_header')
